@@ -347,6 +347,9 @@ def _mk_tile_compressor(
 
 
 def _compress_cog_tile(encoder, block, idx):
+    if not block.dtype.isnative:
+        # header says native byte order, and encoders work on raw memory
+        block = block.astype(block.dtype.newbyteorder("="))
     return [(encoder(block), idx)]
 
 
